@@ -163,7 +163,11 @@ pub fn judge(scn: &Scenario, rr: &RunResult, out: &mut Vec<Viol>) {
     let all_push_returns: Vec<u64> = obs.iter().filter_map(|o| if let Obs::PushReturn { t, .. } = o { Some(*t) } else { None }).collect();
     let all_push_calls: Vec<u64> = obs.iter().filter_map(|o| if let Obs::PushCall { t, .. } = o { Some(*t) } else { None }).collect();
     let mut last_tick_begin: Option<(u64, u32)> = None;
+    let mut first_restart_mark: Option<usize> = None;
     for (oi, o) in obs.iter().enumerate() {
+        if matches!(o, Obs::Restart { .. }) && first_restart_mark.is_none() {
+            first_restart_mark = Some(out.len());
+        }
         match o {
             Obs::PushReturn { t, gen, ids, visible, thread, .. } => {
                 cur_gen_pushes.push((*t, *gen, ids.len()));
@@ -338,6 +342,19 @@ pub fn judge(scn: &Scenario, rr: &RunResult, out: &mut Vec<Viol>) {
             }
             _ => {}
         }
+    }
+
+    // ---------------------------------------------------------------- C12: state of the old stream
+    // must not leak into what the new stream shows: every consistency / from-scratch / panic /
+    // convergence violation observed after the first restart is also a violation of the
+    // isolation (the run over a cleared worker resets scan position, in-flight list and matches)
+    if let Some(mark) = first_restart_mark {
+        let mapped: Vec<Viol> = out[mark..]
+            .iter()
+            .filter(|x| x.prop == "C06" || x.prop == "C07")
+            .map(|x| Viol { prop: "C12", sig: format!("C12/after_restart/{}", x.sig), what: format!("after a restart: {}", x.what) })
+            .collect();
+        out.extend(mapped);
     }
 
     // ---------------------------------------------------------------- C13 (2)
